@@ -61,6 +61,9 @@ type StepSpec struct {
 	// PrecondText, if set, is the raw condition text instead of `$<PrecondVar>` (e.g. a
 	// command substitution reading a file).
 	PrecondText string `json:"precondText,omitempty"`
+	// PrecondEmpty: the generic conditions of the step (HasPrecond) expect the EMPTY value: a met
+	// condition compares an empty variable with `expected: ""`, an unmet one a non-empty variable
+	PrecondEmpty bool `json:"precondEmpty,omitempty"`
 	// SetEnv is exported, SetFile written, when the step's run ends (state produced by the run itself).
 	SetEnv    map[string]string `json:"setEnv,omitempty"`
 	SetFile   map[string]string `json:"setFile,omitempty"`
